@@ -1,0 +1,39 @@
+//go:build verif
+
+// Contracts for the verification machinery in /verif (govc). Comment-only.
+
+package query
+
+// ---- C11: parsing never panics; tokens are cut at the right places; a complete operand ends an operand
+
+//@ func prepToken
+//@   trusted
+//@   pure
+
+// the tokenizer never indexes outside the text, produces only non-nil snippets, and the last
+// token extends to the end of the text (not into the middle of its last character)
+//@ func extractSnippets
+//@   assume len(text) <= 1<<48
+//@   modifies *
+//@   at call prepToken#2 assert len(arg0) == len(text) - start
+//@   loop 0 invariant start >= -1 && (start >= 0 ==> start <= pos) && pos >= 0 && (pos < rangepos() || (pos == 0 && rangepos() == 0)) && rangepos() >= 0 && rangepos() <= len(text) && (rangepos() == 0 ==> start == -1)
+
+// token access of the parser stays inside the token list
+// (the position only moves forward from 0, and back by one after a where clause that consumed at least one token)
+//@ func ParseQuery$1
+//@   requires snippetsPos >= 0 && snippetsPos <= 1<<48
+//@   modifies *
+
+//@ func ParseQuery$2
+//@   pure
+
+// after a complete operand (a condition or a parenthesised group) the parser does not expect
+// another operand: a condition list may end there
+//@ func parseAndOr
+//@   nopanic off
+//@   modifies *
+//@   ghost var complete bool = false
+//@   at call dynamic ghost complete = false
+//@   at after parseCondition ghost complete = true
+//@   at after parseAndOr ghost complete = true
+//@   loop 0 invariant complete ==> !expectingMore
